@@ -6,6 +6,7 @@ package verifharness
 import (
 	"archive/tar"
 	"bytes"
+	"context"
 	"fmt"
 	"io"
 	"strings"
@@ -15,6 +16,32 @@ import (
 type FaultSpec struct {
 	Idx     int  `json:"idx"`     // index among the mutating calls of the round, in issue order
 	Applied bool `json:"applied"` // effect applied although an error is returned
+	// Kind of error handed back: "" generic, "deadline" (wraps
+	// context.DeadlineExceeded), "canceled" (wraps context.Canceled), "eof"
+	// (io.ErrUnexpectedEOF), "temporary" (a net.Error with Timeout() == true).
+	Kind string `json:"kind,omitempty"`
+}
+
+type injectedNetError struct{}
+
+func (injectedNetError) Error() string   { return "verif: injected network timeout" }
+func (injectedNetError) Timeout() bool   { return true }
+func (injectedNetError) Temporary() bool { return true }
+
+var faultKinds = []string{"", "deadline", "canceled", "eof", "temporary"}
+
+func faultErr(kind string) error {
+	switch kind {
+	case "deadline":
+		return fmt.Errorf("verif: injected fault: %w", context.DeadlineExceeded)
+	case "canceled":
+		return fmt.Errorf("verif: injected fault: %w", context.Canceled)
+	case "eof":
+		return fmt.Errorf("verif: injected fault: %w", io.ErrUnexpectedEOF)
+	case "temporary":
+		return fmt.Errorf("verif: injected fault: %w", injectedNetError{})
+	}
+	return errInjected
 }
 
 type CrashSpec struct {
@@ -40,7 +67,7 @@ func (p *RoundPlan) String() string {
 	}
 	var s []string
 	for _, f := range p.Faults {
-		s = append(s, fmt.Sprintf("fault@%d/%v", f.Idx, f.Applied))
+		s = append(s, fmt.Sprintf("fault@%d/%v%s", f.Idx, f.Applied, map[bool]string{true: "/" + f.Kind, false: ""}[f.Kind != ""]))
 	}
 	if c := p.Crash; c != nil {
 		if c.Phase == "tiles" {
@@ -113,7 +140,7 @@ func (p *RoundPlan) Install(in *Inst) (*planState, func() int) {
 		if p != nil {
 			for _, f := range p.Faults {
 				if f.Idx == idx {
-					d = Decision{Apply: f.Applied, Err: errInjected}
+					d = Decision{Apply: f.Applied, Err: faultErr(f.Kind)}
 				}
 			}
 			if cr := p.Crash; cr != nil {
